@@ -26,7 +26,7 @@ impl RangeSpec {
             if mode == 0 && !steer.is_empty() {
                 let i = super::pick(sel, steer.len());
                 let b = steer[i];
-                match delta % 7 {
+                match delta % 9 {
                     0 => b.saturating_sub(1),
                     1 => b,
                     2 => b.saturating_add(1),
@@ -34,7 +34,11 @@ impl RangeSpec {
                     4 => b.saturating_sub(2),
                     // somewhere between this steering point and the next one (the inside of a run or of a gap)
                     5 => b + steer.get(i + 1).map_or(3, |n| n.saturating_sub(b) / 2),
-                    _ => b.saturating_add(7),
+                    6 => b.saturating_add(7),
+                    // far behind the steering point by a multiple of 2^32 (plus a little): distances that do not
+                    // fit 32 bits
+                    7 => b.saturating_add(1 << 32),
+                    _ => b.saturating_add((1 << 32) + 2),
                 }
             } else {
                 abs
@@ -72,7 +76,7 @@ fn abs() -> impl Strategy<Value = u64> {
 }
 
 pub fn range() -> impl Strategy<Value = RangeSpec> {
-    (0u8..3, 0u8..3, (prop_oneof![3 => Just(0u8), 1 => Just(1u8)], any::<u16>(), prop_oneof![3 => 0u8..3, 1 => 3u8..7], abs()), (prop_oneof![3 => Just(0u8), 1 => Just(1u8), 1 => Just(2u8)], any::<u16>(), prop_oneof![3 => 0u8..3, 1 => 3u8..7], abs())).prop_map(
+    (0u8..3, 0u8..3, (prop_oneof![3 => Just(0u8), 1 => Just(1u8)], any::<u16>(), prop_oneof![3 => 0u8..3, 1 => 3u8..9], abs()), (prop_oneof![3 => Just(0u8), 1 => Just(1u8), 1 => Just(2u8)], any::<u16>(), prop_oneof![3 => 0u8..3, 1 => 3u8..9], abs())).prop_map(
         |(lo_kind, hi_kind, (lo_mode, lo_sel, lo_delta, lo_abs), (hi_mode, hi_sel, hi_delta, hi_abs))| RangeSpec {
             lo_kind,
             hi_kind,
